@@ -490,7 +490,7 @@ def items(tier, rng):
     out = []
     q = tier == "quick"
     x = 0 if q else 1
-    cap = 500 if q else 6000
+    cap = 500 if q else 2500
 
     def add(name, harness, params, exhaustive_split=None, mp=None):
         it = {"name": name, "harness": harness, "params": params}
